@@ -69,7 +69,7 @@ func (w *respWriter) Write(b []byte) (int, error) {
 		return 0, errors.New("write: broken pipe (client went away)")
 	}
 	if w.delay > 0 {
-		time.Sleep(w.delay)
+		time.Sleep(w.delay + simrt.Skew())
 	}
 	w.chunks++
 	return w.rec.Body.Write(b)
@@ -210,7 +210,7 @@ func requestGoroutines(sim *simrt.Sim) []string {
 func (st *runState) client(sys *System, ci int, reqs []Req) {
 	for _, r := range reqs {
 		if r.ThinkUs > 0 {
-			time.Sleep(time.Duration(r.ThinkUs) * time.Microsecond)
+			time.Sleep(time.Duration(r.ThinkUs)*time.Microsecond + simrt.Skew())
 			simrt.Yield("client:after-think")
 		}
 		st.mu.Lock()
@@ -242,7 +242,7 @@ func (st *runState) client(sys *System, ci int, reqs []Req) {
 					return
 				}
 				rec.Status = 200
-				deadline := time.After(time.Duration(r.TailMs) * time.Millisecond)
+				deadline := time.After(time.Duration(r.TailMs)*time.Millisecond + simrt.Skew())
 			loop:
 				for {
 					select {
@@ -275,7 +275,7 @@ func (st *runState) client(sys *System, ci int, reqs []Req) {
 		st.db.SetScript(res)
 		ctx, cancel := context.WithCancel(sqlfake.WithScript(context.Background(), &res))
 		if r.CancelUs > 0 {
-			tm := time.AfterFunc(time.Duration(r.CancelUs)*time.Microsecond, func() { rec.Cancelled = true; cancel() })
+			tm := time.AfterFunc(time.Duration(r.CancelUs)*time.Microsecond+simrt.Skew(), func() { rec.Cancelled = true; cancel() })
 			defer tm.Stop()
 		}
 		var body *bytes.Reader
